@@ -44,3 +44,12 @@ def r_init(run, tree):
 
 
 RULES = [r_init, r1_r2, r3, r4_r5, r6]
+
+
+def t_part_space(run, tree):
+    run.rule("C14.T1", "thorough: the particle header folded for every selection of six variables under two type assignments (128 cases): every decode aligned with the "
+             "layout by byte position, skipped variables advance by their own type, pieces only for selected variables", "D1 fold of PartReader.read_header on a symbolic file", "S1", floor=256)
+    lay.check_part_header_space(run, tree)
+
+
+THOROUGH_RULES = [t_part_space]
